@@ -759,6 +759,7 @@ func gitWarehouses(c *Ctx, op string) {
 		return
 	}
 	os.MkdirAll(filepath.Join(base, "plaindir"), 0755)
+	os.MkdirAll(filepath.Join(base, "objdir", "objects"), 0755) // a directory that merely holds an `objects` (a build tree)
 	uf := api.MustParseFilesetUnpackFilter(losslessUnpackStr)
 	addr := func(p string) api.WarehouseLocation { return api.WarehouseLocation("file://" + p) }
 	for k, l := range [][]api.WarehouseLocation{
@@ -766,6 +767,7 @@ func gitWarehouses(c *Ctx, op string) {
 		{addr(filepath.Join(stale, ".git")), addr(filepath.Join(fresh, ".git"))},
 		{addr(filepath.Join(base, "missing")), addr(stale), addr(fresh)},
 		{addr(filepath.Join(base, "plaindir")), addr(fresh)},
+		{addr(filepath.Join(base, "objdir")), addr(fresh)},
 		{addr(fresh), addr(stale)},
 	} {
 		for _, pm := range []rio.PlacementMode{rio.Placement_Direct, rio.Placement_Copy} {
